@@ -19,6 +19,8 @@
     xhtml_roundtrip_markup_partial name_not_a_name_not_recovered rawtext_trailing_lt_recovered
     rawtext_endtag_not_recovered comment_dashes_not_recovered attr_ws_not_recovered_xhtml
     markup_text_not_recovered raw_table_matches_reader normEol_id doctype_table_is_w3c
+    doctype_literal_roundtrip xmldecl_literal_roundtrip html_roundtrip_doc_partial xhtml_roundtrip_doc_tokens_partial
+    xhtml_roundtrip_doc_partial output_no_cr xhtml_roundtrip_doc_readxml_partial doctype_gt_not_recovered_html
 -/
 import Genshi.Lemmas.ReaderXhtml
 import Genshi.Lemmas.ReaderTree
@@ -26,6 +28,8 @@ import Genshi.Lemmas.ReaderTreeNs
 import Genshi.Lemmas.ReaderXhtmlCdata
 import Genshi.Lemmas.ReaderPrologSim
 import Genshi.Lemmas.ReaderXmlView
+import Genshi.Lemmas.ReaderDocView
+import Genshi.Lemmas.OutputNoCR
 import Genshi.Lemmas.OutputSafeText
 import Genshi.Lemmas.Output
 import Genshi.Lemmas.OutputFlatten
@@ -569,6 +573,249 @@ theorem xhtml_roundtrip_prolog_partial (o : Opts) (useCache : Bool) (evs : List 
     · exact loop_cache_eq_spec .xhtml o evs {} (cacheOk_nil .xhtml o)
   rw [hl]; exact xhtml_tokensP o evs hok hend
 
+/-! ### whole documents: prolog, doctype option, body with PI and CDATA -/
+
+/-- The DOCTYPE literal the serializers write is parsed back (by the specification-side
+    `parseDoctype`, html.parser's and expat's reading of it) into exactly the fields of the event —
+    an empty identifier counts as absent (Python truthiness) — and is inside the tokenizer's
+    hypothesis `dtScan`, for all fields that can be told apart in a literal (`dtFieldsOk`: no blank,
+    `>` or quote in the name, no `"` in the public identifier, not both kinds of quote in the system
+    identifier); for an HTML parser, which ends a DOCTYPE at the first `>` whether quoted or not,
+    additionally no `>` in the identifiers (`dtNoGt`; see `doctype_gt_not_recovered_html`). -/
+theorem doctype_literal_roundtrip (n : Str) (p s : Option Str) (h : dtFieldsOk n p s = true) :
+    parseDoctype (doctypeContent n p s) = some (n, normOpt p, normOpt s) ∧
+    dtScan true none (doctypeContent n p s) = true ∧
+    (dtNoGt p s = true → dtScan false none (doctypeContent n p s) = true) :=
+  ⟨parseDoctype_doctypeContent n p s h, dtScan_doctypeContent true n p s h (by intro hx; cases hx),
+   fun hg => dtScan_doctypeContent false n p s h (fun _ => hg)⟩
+
+/-- The same for the XML declaration: version, encoding (empty = absent) and the standalone flag
+    (-1 absent, 0 no, anything else yes) are recovered from the literal, for every version and
+    encoding without `"`. -/
+theorem xmldecl_literal_roundtrip (v : Str) (e : Option Str) (s : Int) (h : xdFieldsOk v e = true) :
+    parseXmlDecl (xmlDeclContent v e s) = some (.xmlDecl v (normOpt e) (standaloneNorm s)) :=
+  parseXmlDecl_xmlDeclContent v e s h
+
+/-- html, over whole documents.  A document is an optional XML declaration, an optional DOCTYPE and a
+    body forest all of whose elements are in one namespace `u` (none: `u = []`; XHTML; any but the XML
+    namespace); the body's leaves may be plain text, comments, processing instructions and CDATA
+    markers (`htmlForestOkP`: as `htmlForestOk`, PI data without `>`).  With or without a doctype
+    option, cache on or off: what html.parser reads back (`readHtml`) is the DOCTYPE that wins (the
+    option if given, else the document's own; never two; its three fields recovered), then the
+    body as `forestPiecesP` prescribes (void elements without end tag, boolean attributes minimised,
+    text merged and verbatim, PIs with html.parser's trailing `?`, no XML declaration, CDATA markers
+    gone).
+    Full statement (not proved): also `strip_whitespace=True` (see `*_strip_partial`), Markup text
+    leaves, forests with several namespaces. -/
+theorem html_roundtrip_doc_partial (cache dropd : Bool) (u : Str) (hu : u ≠ xmlNs) (dopt : Option DocTypeT)
+    (decl : Option DeclT) (dt : Option DocTypeT) (body : List Node)
+    (hok : okList body = true) (hns : forestUniformNs u body = true) (hh : htmlForestOkP body = true)
+    (hwin : dtOkOf (winDt dopt dt) = true) (hgt : dtNoGtOf (winDt dopt dt) = true) :
+    (render .html { strip := false, cache := cache, doctype := dopt, dropXmlDecl := dropd }
+        (flattenList (docNodes decl dt body))).bind readHtml =
+      some (htmlDocView (winDt dopt dt) (forestPiecesP body)) := by
+  have hc : render .html { strip := false, cache := cache, doctype := dopt, dropXmlDecl := dropd }
+        (flattenList (docNodes decl dt body)) =
+      render .html { strip := false, cache := false, doctype := dopt, dropXmlDecl := dropd }
+        (flattenList (docNodes decl dt body)) := by
+    cases cache
+    · rfl
+    · exact Genshi.Props.C08.render_cache_irrelevant' .html false dopt dropd _
+  rw [hc]
+  have hf := filtered_forestU_dt .html dropd u hu dopt (docNodes decl dt body) (okList_doc decl dt body hok)
+    (uniformNs_doc u decl dt body hns)
+  rw [forestFu_doc, withDoctype_doc _ _ _ _ (notXdHead_bodyH u false body hh)] at hf
+  simp only [render, chunks, hf, Option.map_some, Option.bind_some, readHtml]
+  have hl : ∀ evs, loop .html ⟨dropd⟩ false {} evs = serSpec .html ⟨dropd⟩ {} evs :=
+    fun evs => loop_nocache_eq_spec .html ⟨dropd⟩ evs {}
+  rw [hl, html_doc_tokens ⟨dropd⟩ decl dopt dt _ _ (bodyH_forestU u false body hh) hwin hgt]
+  simp only [Option.map_some]
+  rw [htmlView_doc _ _ hwin]
+
+/-- xhtml, over whole documents, tokenizer level (before namespace resolution): the XML declaration
+    (only with `drop_xml_decl=False`) and the winning DOCTYPE are read back as their literals, each
+    followed by its line feed, then the body as `forestPiecesXP` prescribes: `xmlns="u"` on the
+    outermost elements, childless void elements self-closed, boolean attributes expanded, CDATA
+    sections as ordinary character data, PIs verbatim.  Body hypotheses `xKidsOkP` (as
+    `xhtmlForestOk`; inside a CDATA section only plain text that cannot close it; PI data without
+    `?>`). -/
+theorem xhtml_roundtrip_doc_tokens_partial (cache dropd : Bool) (u : Str) (hu : u ≠ xmlNs) (huv : attrValOkB u = true)
+    (dopt : Option DocTypeT) (decl : Option DeclT) (dt : Option DocTypeT) (body : List Node)
+    (hok : okList body = true) (hns : forestUniformNs u body = true) (hh : xKidsOkP false body = true)
+    (hdecl : xdOkOf ⟨dropd⟩ decl = true) (hwin : dtOkOf (winDt dopt dt) = true) :
+    (render .xhtml { strip := false, cache := cache, doctype := dopt, dropXmlDecl := dropd }
+        (flattenList (docNodes decl dt body))).bind (tokens true) =
+      some (assemble (xdPiecesOf ⟨dropd⟩ decl ++ (dtPiecesOf (winDt dopt dt) ++ forestPiecesXP u false body))) := by
+  have hc : render .xhtml { strip := false, cache := cache, doctype := dopt, dropXmlDecl := dropd }
+        (flattenList (docNodes decl dt body)) =
+      render .xhtml { strip := false, cache := false, doctype := dopt, dropXmlDecl := dropd }
+        (flattenList (docNodes decl dt body)) := by
+    cases cache
+    · rfl
+    · exact Genshi.Props.C08.render_cache_irrelevant' .xhtml false dopt dropd _
+  rw [hc]
+  have hf := filtered_forestU_dt .xhtml dropd u hu dopt (docNodes decl dt body) (okList_doc decl dt body hok)
+    (uniformNs_doc u decl dt body hns)
+  rw [forestFu_doc, withDoctype_doc _ _ _ _ (notXdHead_bodyX u false body hh)] at hf
+  simp only [render, chunks, hf, Option.map_some, Option.bind_some]
+  have hl : ∀ evs, loop .xhtml ⟨dropd⟩ false {} evs = serSpec .xhtml ⟨dropd⟩ {} evs :=
+    fun evs => loop_nocache_eq_spec .xhtml ⟨dropd⟩ evs {}
+  rw [hl]
+  exact xhtml_doc_tokens ⟨dropd⟩ decl dopt dt _ _ (bodyX_kids ⟨dropd⟩ u huv body false false hh) hdecl hwin
+
+/-- xhtml, over whole documents, through namespace resolution (expat's view, `xmlView`): the XML
+    declaration comes back with its fields (only with `drop_xml_decl=False`), then the winning
+    DOCTYPE with its fields, then the body: every element in namespace `u`, `xml:` attributes in the
+    XML namespace, the `xmlns` declaration consumed, self-closed elements as start + end, PIs split
+    into target and data (`xmlMapTok`; `xmlMapTok_pi`: recovered when the target holds no white
+    space and the data starts with none), the line feeds of the prolog dropped.  Additional
+    hypotheses `xmlForestOkP` (no character data outside elements, names without colon, no attribute
+    called `xmlns`, no PI that looks like an XML declaration) and `xdViewOk` (no `"` in the
+    declaration's fields). -/
+theorem xhtml_roundtrip_doc_partial (cache dropd : Bool) (u : Str) (hu : u ≠ xmlNs) (huv : attrValOkB u = true)
+    (dopt : Option DocTypeT) (decl : Option DeclT) (dt : Option DocTypeT) (body : List Node)
+    (hok : okList body = true) (hns : forestUniformNs u body = true) (hh : xKidsOkP false body = true)
+    (hx : xmlForestOkP true body = true)
+    (hdecl : xdViewOk ⟨dropd⟩ decl = true) (hwin : dtOkOf (winDt dopt dt) = true) :
+    (render .xhtml { strip := false, cache := cache, doctype := dopt, dropXmlDecl := dropd }
+        (flattenList (docNodes decl dt body))).bind (fun out => (tokens true out).bind (xmlView [])) =
+      some (xdXOf ⟨dropd⟩ decl ++ (dtXOf (winDt dopt dt) ++
+        (assemble (forestPiecesXP u false body)).flatMap (xmlMapTok u))) := by
+  have h1 := xhtml_roundtrip_doc_tokens_partial cache dropd u hu huv dopt decl dt body hok hns hh
+    (xdOkOf_of_view _ _ hdecl) hwin
+  cases hr : render .xhtml { strip := false, cache := cache, doctype := dopt, dropXmlDecl := dropd }
+      (flattenList (docNodes decl dt body)) with
+  | none => simp [hr] at h1
+  | some out =>
+    simp only [hr, Option.bind_some] at h1 ⊢
+    rw [h1, Option.bind_some, assemble_doc _ _ _ _ (startsTok_forestP u body hx),
+      xmlView_prolog _ _ _ _ hdecl hwin, xmlView_forestP u body hx]
+    rfl
+
+/-- without CR the expat view applies the tokenizer to the text as it is -/
+theorem normEol_id (s : Str) (h : '\r' ∉ s) : normEol s = s := by
+  unfold normEol
+  induction s with
+  | nil => rfl
+  | cons c cs ih =>
+    have hc : (c == '\r') = false := by
+      have : c ≠ '\r' := fun e => h (by simp [e])
+      simpa using this
+    have hcs : '\r' ∉ cs := fun e => h (by simp [e])
+    simp [normEolGo, hc, ih hcs]
+
+/-- what `render` (strip off) writes for a document: the main loop's specification over the prolog
+    events, the option's DOCTYPE in its place, and the filtered body -/
+theorem render_doc (m : Method) (cache dropd : Bool) (u : Str) (hu : u ≠ xmlNs) (dopt : Option DocTypeT)
+    (decl : Option DeclT) (dt : Option DocTypeT) (body : List Node)
+    (hok : okList body = true) (hns : forestUniformNs u body = true) (hB : notXdHead (forestFu u false body) = true) :
+    render m { strip := false, cache := cache, doctype := dopt, dropXmlDecl := dropd }
+        (flattenList (docNodes decl dt body)) =
+      some (serSpec m ⟨dropd⟩ {} (declF decl ++ (dtF dopt ++ (dtF dt ++ forestFu u false body)))).flatten := by
+  have hc : render m { strip := false, cache := cache, doctype := dopt, dropXmlDecl := dropd }
+        (flattenList (docNodes decl dt body)) =
+      render m { strip := false, cache := false, doctype := dopt, dropXmlDecl := dropd }
+        (flattenList (docNodes decl dt body)) := by
+    cases cache
+    · rfl
+    · exact Genshi.Props.C08.render_cache_irrelevant' m false dopt dropd _
+  rw [hc]
+  have hf := filtered_forestU_dt m dropd u hu dopt (docNodes decl dt body) (okList_doc decl dt body hok)
+    (uniformNs_doc u decl dt body hns)
+  rw [forestFu_doc, withDoctype_doc _ _ _ _ hB] at hf
+  have hl : ∀ evs, loop m ⟨dropd⟩ false {} evs = serSpec m ⟨dropd⟩ {} evs :=
+    fun evs => loop_nocache_eq_spec m ⟨dropd⟩ evs {}
+  simp only [render, chunks, hf, Option.map_some, hl]
+
+/-- The serializers write no carriage return unless the stream holds one: for every method, option
+    setting, context and filtered stream whose strings are free of CR, so is the output. -/
+theorem output_no_cr (m : Method) (o : Opts) (useCache : Bool) (evs : List FEv) (h : ∀ ev ∈ evs, evNcr ev = true) :
+    '\r' ∉ (loop m o useCache {} evs).flatten := by
+  have hl : loop m o useCache {} evs = serSpec m o {} evs := by
+    cases useCache
+    · exact loop_nocache_eq_spec m o evs {}
+    · exact loop_cache_eq_spec m o evs {} (cacheOk_nil m o)
+  rw [hl]
+  have := serSpec_ncr m o evs {} h
+  intro hmem
+  have := List.all_eq_true.mp this '\r' hmem
+  simp at this
+
+/-- xhtml, over whole documents, as ONE statement about expat's reading of the output (`readXml` =
+    line-end normalisation, tokenizer, namespace resolution): under the hypotheses of
+    `xhtml_roundtrip_doc_partial` and when no string of the document holds a carriage return
+    (`forestNcr` …; with one, XML line-end normalisation changes the text: finding C08-text-cr), the
+    parser delivers the declaration, the winning DOCTYPE and the body with qualified names. -/
+theorem xhtml_roundtrip_doc_readxml_partial (cache dropd : Bool) (u : Str) (hu : u ≠ xmlNs) (huv : attrValOkB u = true)
+    (dopt : Option DocTypeT) (decl : Option DeclT) (dt : Option DocTypeT) (body : List Node)
+    (hok : okList body = true) (hns : forestUniformNs u body = true) (hh : xKidsOkP false body = true)
+    (hx : xmlForestOkP true body = true)
+    (hdecl : xdViewOk ⟨dropd⟩ decl = true) (hwin : dtOkOf (winDt dopt dt) = true)
+    (hcr : docNcr u dopt decl dt body = true) :
+    (render .xhtml { strip := false, cache := cache, doctype := dopt, dropXmlDecl := dropd }
+        (flattenList (docNodes decl dt body))).bind readXml =
+      some (xdXOf ⟨dropd⟩ decl ++ (dtXOf (winDt dopt dt) ++
+        (assemble (forestPiecesXP u false body)).flatMap (xmlMapTok u))) := by
+  have h1 := xhtml_roundtrip_doc_partial cache dropd u hu huv dopt decl dt body hok hns hh hx hdecl hwin
+  have hr := render_doc .xhtml cache dropd u hu dopt decl dt body hok hns (notXdHead_bodyX u false body hh)
+  rw [hr] at h1 ⊢
+  simp only [Option.bind_some] at h1 ⊢
+  simp only [docNcr, Bool.and_eq_true] at hcr
+  obtain ⟨⟨⟨⟨hu', hb⟩, hd1⟩, hd2⟩, hd3⟩ := hcr
+  have hev : ∀ ev ∈ declF decl ++ (dtF dopt ++ (dtF dt ++ forestFu u false body)), evNcr ev = true := by
+    intro ev hev
+    simp only [List.mem_append] at hev
+    rcases hev with h | h | h | h
+    · cases decl with
+      | none => simp [declF] at h
+      | some x => simp only [declF, List.mem_singleton] at h; subst h; simpa [evNcr, declNcr] using hd1
+    · cases dopt with
+      | none => simp [dtF] at h
+      | some x => simp only [dtF, List.mem_singleton] at h; subst h; simpa [evNcr, dtNcr] using hd2
+    · cases dt with
+      | none => simp [dtF] at h
+      | some x => simp only [dtF, List.mem_singleton] at h; subst h; simpa [evNcr, dtNcr] using hd3
+    · exact ncr_forestFu u hu' false body hb ev h
+  have hn := serSpec_ncr .xhtml ⟨dropd⟩ _ {} hev
+  have hnot : '\r' ∉ (serSpec .xhtml ⟨dropd⟩ {} (declF decl ++ (dtF dopt ++ (dtF dt ++ forestFu u false body)))).flatten := by
+    intro hmem
+    have := List.all_eq_true.mp hn '\r' hmem
+    simp at this
+  unfold readXml
+  rw [normEol_id _ hnot]
+  exact h1
+
+def exDocBody : List Node :=
+  [.leaf (.pi ['p', 'h', 'p'] ['e', 'c', 'h', 'o']),
+   .elem ⟨xhtmlNs, ['p']⟩ [(⟨[], ['c', 'h', 'e', 'c', 'k', 'e', 'd']⟩, ['y'])]
+     [.elem ⟨xhtmlNs, ['b', 'r']⟩ [] [], .leaf (.text ['a', '<'] false), .leaf .startCdata,
+      .leaf (.text ['&', ']'] false), .leaf .endCdata, .leaf (.comment ['c'])]]
+
+def exDecl : Option DeclT := some (['1', '.', '0'], some ['u', 't', 'f', '-', '8'], -1)
+def exDt : Option DocTypeT := some (['h', 't', 'm', 'l'], none, some ['a', '"', 'b'])
+def exDopt : Option DocTypeT := some (['h', 't', 'm', 'l'], some ['-', '/', '/', 'W', '3', 'C'], some ['x', '.', 'd', 't', 'd'])
+
+example : okList exDocBody = true ∧ forestUniformNs xhtmlNs exDocBody = true ∧ htmlForestOkP exDocBody = true ∧
+    xKidsOkP false exDocBody = true ∧ xmlForestOkP true exDocBody = true ∧ xdViewOk ⟨false⟩ exDecl = true ∧
+    dtOkOf (winDt exDopt exDt) = true ∧ dtOkOf (winDt none exDt) = true ∧ dtNoGtOf (winDt exDopt exDt) = true := by
+  decide
+
+example : htmlDocView (winDt exDopt exDt) (forestPiecesP exDocBody) =
+    [.doctype ['h', 't', 'm', 'l'] (some ['-', '/', '/', 'W', '3', 'C']) (some ['x', '.', 'd', 't', 'd']),
+     .pi ['p', 'h', 'p', ' ', 'e', 'c', 'h', 'o', '?'],
+     .start ['p'] [(['c', 'h', 'e', 'c', 'k', 'e', 'd'], none)], .start ['b', 'r'] [],
+     .text ['a', '<', '&', ']'], .comment ['c'], .end_ ['p']] := by decide
+
+example : xdXOf ⟨false⟩ exDecl ++ (dtXOf (winDt none exDt) ++
+      (assemble (forestPiecesXP xhtmlNs false exDocBody)).flatMap (xmlMapTok xhtmlNs)) =
+    [.xmlDecl ['1', '.', '0'] (some ['u', 't', 'f', '-', '8']) (-1),
+     .doctype ['h', 't', 'm', 'l'] none (some ['a', '"', 'b']),
+     .pi ['p', 'h', 'p'] ['e', 'c', 'h', 'o'],
+     .start ⟨xhtmlNs, ['p']⟩ [(⟨[], ['c', 'h', 'e', 'c', 'k', 'e', 'd']⟩, ['c', 'h', 'e', 'c', 'k', 'e', 'd'])],
+     .start ⟨xhtmlNs, ['b', 'r']⟩ [], .end_ ⟨xhtmlNs, ['b', 'r']⟩,
+     .text ['a', '<', '&', ']'], .comment ['c'], .end_ ⟨xhtmlNs, ['p']⟩] := by decide
+
+
 def exProlog : List FEv :=
   [.xmlDecl ['1', '.', '0'] none (-1), .doctype ['h', 't', 'm', 'l'] none (some ['a', '"', 'b']),
    .doctype ['x'] none none, .start ['p'] [], .pi ['x'] ['y'], .text ['<'] false, .end_ ['p']]
@@ -621,6 +868,14 @@ example : tokens false (loop .html {} true {} [.start ['p'] [], .text ['a', '&',
 theorem pi_gt_not_recovered_html :
     let evs : List FEv := [.pi ['x'] ['a', '>', 'b']]
     tokens false (loop .html {} true {} evs).flatten ≠ some (htmlExpectedP evs) := by decide
+
+/-- a DOCTYPE identifier that contains `>` is cut short by an HTML parser, quoted or not (html.parser
+    and the HTML5 tokenizer end the declaration at the first `>`; expat is quote-aware): the rest is
+    read as live markup (known finding C08-doctype-gt-html, reported by work package `san`) -/
+theorem doctype_gt_not_recovered_html :
+    let evs : List FEv := [.doctype ['h', 't', 'm', 'l'] none (some ['x', '>', '<', 'b', '>'])]
+    tokens false (loop .html {} true {} evs).flatten ≠ some (htmlExpectedP evs) ∧
+    tokens true (loop .xhtml {} true {} evs).flatten = some (xhtmlExpectedP {} evs) := by decide
 
 /-- `]]>` inside a CDATA section ends it early (limit of the format) -/
 theorem cdata_end_not_recovered :
@@ -680,17 +935,5 @@ theorem markup_text_not_recovered :
 /-- the elements the html serializer writes raw are the ones the reader (html.parser) reads raw -/
 theorem raw_table_matches_reader :
     (Gen.Output.htmlNoescapeElems.filter (fun p => p.1.isEmpty)).map (·.2) = rawTextElems := by decide
-
-/-- without CR the expat view applies the tokenizer to the text as it is -/
-theorem normEol_id (s : Str) (h : '\r' ∉ s) : normEol s = s := by
-  unfold normEol
-  induction s with
-  | nil => rfl
-  | cons c cs ih =>
-    have hc : (c == '\r') = false := by
-      have : c ≠ '\r' := fun e => h (by simp [e])
-      simpa using this
-    have hcs : '\r' ∉ cs := fun e => h (by simp [e])
-    simp [normEolGo, hc, ih hcs]
 
 end Genshi.Props.C08
